@@ -15,6 +15,7 @@ VARS = ["X", "Y", "Z", "W", "V", "U"]
 CONSTS = ["1", "2", "3", "0", "-1", "a", "b", "foo"]
 CMPS = ["<", "<=", ">", ">=", "!=", "="]
 AGGS = ["#sum", "#count", "#min", "#max", "#sum+"]
+FIRST_TERMS = ["1", "2", "0", "-1", "X", "a", '"s"', "#sup", "#inf", "f(X)", "(1,2)"]
 
 
 def term(rng, depth=0, vars_=VARS):
@@ -153,10 +154,13 @@ def head(rng):
         f = rng.choice(["#sum", "#count"])
         els = []
         for _ in range(rng.choice([1, 2])):
-            ts = ",".join(term(rng, 1) for _ in range(rng.choice([1, 2])))
+            tl = [term(rng, 1) for _ in range(rng.choice([1, 2]))]
+            if rng.random() < 0.5:  # every kind of symbol as the weight: numbers, strings, constants, #sup/#inf, functions
+                tl[0] = rng.choice(FIRST_TERMS)
+            ts = ",".join(tl)
             c = cond(rng, rng.choice([0, 1]))
             els.append(f"{ts} : {atom(rng)} : {c}" if c else f"{ts} : {atom(rng)}")
-        return f"{rng.choice(['', '1 <= '])}{f} {{ {'; '.join(els)} }} {rng.choice(['<= 2', '= 1', '>= 1'])}"
+        return f"{rng.choice(['', '1 <= '])}{f} {{ {'; '.join(els)} }} {rng.choice(['<= 2', '= 1', '>= 1', '<= 1', '< 2'])}"
     return "not " + atom(rng)
 
 
@@ -245,8 +249,40 @@ def layered_program(rng) -> str:
     return "\n".join(lines)
 
 
+def collide_vars(rng, text: str) -> str:
+    """rename one variable to the name a fresh-variable request for ANOTHER variable of the program would produce
+    (`X` -> `X0`, `X1`, ...: utils/globals.py UniqueVariables appends a counter): a pass that checks freshness against
+    too small a scope captures it"""
+    vs = sorted(set(re.findall(r"\b[A-Z][A-Za-z0-9]*\b", text)))
+    if len(vs) < 2:
+        return text
+    u = rng.choice(vs)
+    v = rng.choice([x for x in vs if x != u])
+    new = u + rng.choice(["0", "0", "1"])
+    if new in vs:
+        return text
+    return re.sub(rf"\b{v}\b", new, text)
+
+
+EXOTIC_SYMBOLS = ['"s"', "c", "#sup", "#inf", "f(1)", "(1,2)", "-1", "0", "-3", "1..2", "X"]
+
+
+def exotic_const(rng, text: str) -> str:
+    """replace one integer literal (a weight, a bound, an argument) by a symbol of another kind: code that reads `.number`,
+    compares with `> 0` or does arithmetic on it must first look at the symbol's type"""
+    ms = [m for m in re.finditer(r"(?<![A-Za-z_0-9@./\"])\d+(?![A-Za-z_0-9.(\"])", text)]
+    if not ms:
+        return text
+    m = rng.choice(ms)
+    return text[:m.start()] + rng.choice(EXOTIC_SYMBOLS) + text[m.end():]
+
+
 def mutate(rng, text: str) -> str:
     r = rng.random()
+    if r < 0.07:
+        return collide_vars(rng, text)
+    if rng.random() < 0.07:
+        return exotic_const(rng, text)
     if rng.random() < 0.12:  # statement order must not matter
         ls = [l for l in text.split("\n") if l.strip()]
         if len(ls) > 1 and all(l.rstrip().endswith((".", "]")) for l in ls):
